@@ -125,6 +125,8 @@ TypeOf(e, G, F, L, inDecl) ==
     [] e.id = "GLOBAL" -> IF e.s \in DOMAIN F THEN Bad("funcNoArgs") ELSE IF e.s \in DOMAIN G THEN G[e.s] ELSE Bad("untyped")
     [] e.id = "LOCAL"  -> IF e.s \in DOMAIN L THEN L[e.s] ELSE Bad("undeclared")
     [] e.id = "RADICAL" -> IF inDecl THEN TBool(TRad(e.s)) ELSE Bad("radical")
+    \* a LOGIC-typed global (axiom, theorem) is grammatically an identifier but has no admissible use as an operand
+    [] \E i \in 1..N : e.ch[i].id = "GLOBAL" /\ e.ch[i].s \in DOMAIN G /\ e.ch[i].s \notin DOMAIN F /\ G[e.ch[i].s].k = "logic" -> Bad("logicOperand")
     [] e.id \in NoEmptyChild /\ EmptyChild -> Bad("emptyset")
     [] e.id \in Quant \cup {"DECLARATIVE"} ->
          LET dom == TL(e.ch[2], L) IN
